@@ -468,7 +468,12 @@ def build_awkward_rp66(slot, s, layout='one', n=3, xs=None, xcode=7):
     pset = {'type': fld('set_type', b'PARAMETER'), 'name': b'par', 'lrtype': 5,
             'template': [{'label': fld('param_label', b'VALUES'), 'code': 20}, {'label': b'ID', 'code': 19}],
             'objects': [{'name': (1, 0, fld('param_object', b'P1')), 'comps': [comp0, {'values': [fld('param_ident', b'idt')]}]}]}
-    sets = [c03.FILE_HEADER, c03.ORIGIN, cset, fset, pset]
+    # numbers that are equal across types (2 == 2.0, 0.0 == -0.0): the index has to keep them apart
+    nset = {'type': b'EQUIPMENT', 'name': b'num', 'lrtype': 5,
+            'template': [{'label': b'COUNTS', 'code': 14}, {'label': b'LENGTHS', 'code': 7}],
+            'objects': [{'name': (1, 0, b'N1'), 'comps': [{'count': 4, 'values': [0, 2, 41, -7]}, {'count': 5, 'values': [0.0, -0.0, 2.0, 41.0, 2.5]}]},
+                        {'name': (1, 0, b'N2'), 'comps': [{'count': 2, 'values': [3, 1]}, {'count': 3, 'values': [-0.0, 3.0, 1.0]}]}]}
+    sets = [c03.FILE_HEADER, c03.ORIGIN, cset, fset, pset, nset]
     recs = [{'eflr': True, 'type': c03.lrtype_for(x), 'payload': c03.encode_set(x)} for x in sets]
     t = {'channels': chans}
     for f in range(n):
@@ -484,7 +489,7 @@ def build_awkward_rp66(slot, s, layout='one', n=3, xs=None, xcode=7):
         recs.append(rec)
     sul = R.sul_bytes(ident=fld('sul_id', b'Default Storage Set')[:60].ljust(60))
     data, _lay = R.build_file(recs, sul=sul)
-    return data, {'tables': [5], 'types': [fname], 'frames': [n]}
+    return data, {'tables': [6], 'types': [fname], 'frames': [n]}
 
 
 def memory_snapshot(li):
@@ -494,8 +499,10 @@ def memory_snapshot(li):
     sul = li.storage_unit_label
     by.add(sul.storage_set_identifier)
     for lf in li.logical_files:
-        ent = {'eflr_pos': [], 'set_types': [], 'has_log_pass': bool(lf.has_log_pass), 'fas': []}
+        ent = {'eflr_pos': [], 'set_types': [], 'has_log_pass': bool(lf.has_log_pass), 'fas': [], 'numbers': []}
         for pos, eflr in lf.eflrs:
+            ent['numbers'].append([[[(('float' if isinstance(v, float) else 'int'), v) if isinstance(v, (int, float)) and not isinstance(v, bool)
+                                      else None for v in (a.value or [])] if a is not None else None for a in obj.attrs] for obj in eflr.objects])
             ent['eflr_pos'].append(pos.lrsh_position)
             ent['set_types'].append(eflr.set.type)
             by.add(eflr.set.type)
@@ -604,6 +611,44 @@ def xaxis_check(elem, xs):
     return bad + [({'kind': 'rle_xaxis', 'cause': cause}, shown + ' (first difference at index %d)' % wrong[0])]
 
 
+def numbers_check(k, eflrs, numbers):
+    """Every number held by an object attribute of the in-memory index is found in the document as a <Value> whose declared
+    type and text read back as that very number (an integer stays an integer, a float a float, minus zero minus zero)."""
+    import math
+    for e, objs in zip(eflrs, numbers):
+        obj_els = e.elements('Object')
+        if len(obj_els) != len(objs):
+            continue        # a private set written without its objects
+        for oe, attrs in zip(obj_els, objs):
+            attr_els = oe.elements('Attribute')
+            if len(attr_els) != len(attrs):
+                return [({'kind': 'index_structure', 'what': 'attribute_count'}, 'logical file %d: object with %d <Attribute> elements, index holds %d'
+                         % (k, len(attr_els), len(attrs)))]
+            for ae, vals in zip(attr_els, attrs):
+                if vals is None:
+                    continue
+                val_els = ae.elements()
+                if len(val_els) != len(vals):
+                    return [({'kind': 'index_value_count'}, 'logical file %d attribute %r: %d values written, index holds %d'
+                             % (k, ae.attrs.get('label'), len(val_els), len(vals)))]
+                for ve, kv in zip(val_els, vals):
+                    if kv is None:
+                        continue
+                    kind, v = kv
+                    typ, text = ve.attrs.get('type'), ve.attrs.get('value')
+                    try:
+                        back = int(text) if typ == 'int' else float(text) if typ == 'float' else None
+                    except (TypeError, ValueError):
+                        back = None
+                    same = back is not None and typ == kind and (back == v or (back != back and v != v)) and \
+                        (kind == 'int' or math.copysign(1.0, back) == math.copysign(1.0, v))
+                    if not same:
+                        return [({'kind': 'index_number_changed', 'memory': kind},
+                                 'logical file %d attribute %r: the index holds the %s %r, the document says type=%r value=%r'
+                                 % (k, ae.attrs.get('label'), kind, v, typ, text))]
+    return []
+
+
 def check_index_document(root, snap, expect):
     """root: parsed RP66V1FileIndex; snap: memory_snapshot; expect: {'tables': [n per logical file], 'types': [...], 'frames': [...]} or None."""
     bad = []
@@ -628,6 +673,7 @@ def check_index_document(root, snap, expect):
                 bad.append(({'kind': 'index_structure', 'what': 'eflr_position'}, '%s: %s' % (type(err).__name__, err)))
             if pos is not None and pos != mem['eflr_pos']:
                 bad.append(({'kind': 'eflr_position'}, 'logical file %d: EFLR positions %r, index holds %r' % (k, pos, mem['eflr_pos'])))
+            bad += numbers_check(k, eflrs, mem['numbers'])
         lp = el.find('LogPass')
         fas = lp.elements('FrameArray') if lp is not None else []
         ntypes = len(mem['fas']) if mem['has_log_pass'] else 0
